@@ -12,6 +12,7 @@ CONSTANTS
   TxNoLock = FALSE
   WalGuard = TRUE
   WalOwnerTest = FALSE
+  FlushAll = FALSE
   Exclude = {"DmsW", "RecovW", "RecovU"}
   Gated = FALSE
   EmitEdges = FALSE
